@@ -936,3 +936,72 @@ func (s *Server) answerPing(c net.Conn) {
 	s.logf("send-enc", res, id, "")
 	s.sendFrame(c, cat(kid, msgKey, igeEnc(k, iv, plain)))
 }
+
+// ---------------------------------------------------------------------------------------------
+// chatter after the exchange: ONE more server message on the still open connection
+
+// ChatterKinds are the messages SendChatter knows.  The "plain-*" ones travel in an unencrypted envelope; "garbage40" is
+// 40 bytes with a non-zero key id; "enc-new_session_created" is the legitimate, encrypted notification (only after
+// a finished exchange).
+var ChatterKinds = []string{"plain-new_session_created", "plain-bad_server_salt", "plain-rpc_result", "plain-container", "garbage40"}
+
+func (s *Server) chatterBody(kind string, salt uint64) []byte {
+	nsc := cat(U32(0x9ec20908), U64(0x5e0b700a00000000), U64(0x1122334455667788), U64(salt))
+	switch kind {
+	case "plain-new_session_created", "enc-new_session_created":
+		return nsc
+	case "plain-bad_server_salt":
+		return cat(U32(0xedab447b), U64(0x5e0b700a00000004), U32(2), U32(48), U64(salt))
+	case "plain-rpc_result":
+		return cat(U32(0xf35c6d01), U64(0x5e0b700a00000008), U32(CrcPong), U64(0x5e0b700a00000008), U64(7))
+	case "plain-container":
+		return cat(U32(0x73f1f8dc), U32(1), U64(0x5e0b700a00000011), U32(1), U32(uint32(len(nsc))), nsc)
+	}
+	return nil
+}
+
+// SendChatter sends one message of the given kind; salt is the server_salt / new_server_salt it announces.
+func (s *Server) SendChatter(kind string, salt uint64) error {
+	s.mu.Lock()
+	c := s.conn
+	s.nextID += 4
+	id := s.nextID + 3 // a notification, not an answer
+	key, kid, sid, cur := s.res.AuthKey, s.res.KeyID, s.res.EncSID, s.res.Salt
+	s.mu.Unlock()
+	if c == nil {
+		return errors.New("hsserver: no connection")
+	}
+	switch {
+	case kind == "garbage40":
+		pkt := make([]byte, 40)
+		for i := range pkt {
+			pkt[i] = byte(0xa5 ^ i)
+		}
+		s.logf("send-post", pkt, 0, kind)
+		s.sendFrame(c, pkt)
+	case kind == "enc-new_session_created":
+		if key == nil || sid == nil {
+			return errors.New("hsserver: no key / session for an encrypted notification")
+		}
+		body := s.chatterBody(kind, salt)
+		plain := cat(cur, sid, U64(uint64(id)), U32(1), U32(uint32(len(body))), body)
+		msgKey := sha(plain)[4:20]
+		for len(plain)%16 != 0 {
+			plain = append(plain, 0x3c)
+		}
+		k, iv := kdf(key, msgKey, 8)
+		s.logf("send-post", body, id, kind)
+		s.sendFrame(c, cat(kid, msgKey, igeEnc(k, iv, plain)))
+	default:
+		body := s.chatterBody(kind, salt)
+		if body == nil {
+			return errors.New("hsserver: unknown chatter kind " + kind)
+		}
+		pkt := make([]byte, 20, 20+len(body))
+		binary.LittleEndian.PutUint64(pkt[8:], uint64(id))
+		binary.LittleEndian.PutUint32(pkt[16:], uint32(len(body)))
+		s.logf("send-post", body, id, kind)
+		s.sendFrame(c, append(pkt, body...))
+	}
+	return nil
+}
